@@ -68,3 +68,86 @@ def tapscript_checksig(ex, siglen, keylen, discourage):
         claims["pushes_one_iff_signature_non_empty"] = sand(len(stack) == 1, stack[0] == (b"\x01" if siglen else b""))
         claims["budget_charged_iff_signature_non_empty"] = left == (budget - 50 if siglen else budget)
     return claims
+
+
+from btclib.script.engine import script as _escript
+
+
+_DER_OK = bytes.fromhex("3006020101020101")          # r = 1, s = 1: canonical DER, low s
+_DER_BAD = bytes.fromhex("3006020101020100ff")        # wrong inner length: not a valid encoding
+
+
+def _checksig_params(tier):
+    out = []
+    for sig in ("empty", "der_ok", "der_bad"):
+        for L in (0, 1, 33, 65):
+            for segwit in (0, 1):
+                for fl in ([], ["STRICTENC"], ["WITNESS_PUBKEYTYPE"], ["STRICTENC", "WITNESS_PUBKEYTYPE", "NULLFAIL"], ["DERSIG"], ["NULLFAIL"]):
+                    if tier == "quick" and sig == "der_bad" and fl in ([], ["NULLFAIL"]):
+                        continue
+                    out.append(dict(sig=sig, L=L, segwit=segwit, fl=fl))
+    for sig in ("empty", "der_ok", "der_bad"):     # the signature's own push sits in the script code
+        for L in (1, 33):
+            for segwit in (0, 1):
+                for fl in (["CONST_SCRIPTCODE"], ["CONST_SCRIPTCODE", "STRICTENC"], ["STRICTENC"]):
+                    out.append(dict(sig=sig, L=L, segwit=segwit, fl=fl, fad=1))
+    return out
+
+
+@ob("C08", "checksig_pre_tapscript_rules_vs_core", quick=_checksig_params("quick"), thorough=_checksig_params("thorough"),
+    bound="legacy / witness-v0 OP_CHECKSIG plumbing with an empty signature, a canonical DER signature or a malformed one, each followed by a symbolic hash-type byte; "
+          "public key of 0/1/33/65 bytes with a symbolic first byte; flag subsets of STRICTENC, WITNESS_PUBKEYTYPE, DERSIG, NULLFAIL, CONST_SCRIPTCODE (with the signature's push inside the script code); the ECDSA verification itself an arbitrary boolean "
+          "(False for a key whose size does not match its header): the script fails exactly where Core's CheckSignatureEncoding / CheckPubKeyEncoding fail it, "
+          "otherwise the result is the verification's",
+    stubs=["script.dsa_verify answers an arbitrary boolean for well-sized keys"],
+    functions=["btclib.script.engine.script.op_checksig", "btclib.script.engine.script.fix_signature", "btclib.script.engine.script.check_pub_key"], min_ok=0, timeout=300)
+def checksig_rules(ex, sig, L, segwit, fl, fad=0):
+    flags = ScriptFlag(0)
+    for f in fl:
+        flags |= ScriptFlag[f]
+    ht = ex.bytes("ht", 1)
+    if sig == "empty":
+        signature = b""
+    else:
+        signature = (_DER_OK if sig == "der_ok" else _DER_BAD) + ht
+    head = ex.bytes("k", 1) if L else b""
+    key = head + b"\x11" * max(L - 1, 0)
+    verdict = ex.bool("ecdsa_ok")
+    if L:
+        p = head[0]
+        compressed = sand(L == 33, sor(p == 2, p == 3))
+        uncompressed = sand(L == 65, p == 4)
+        valid_size = sor(compressed, sand(L == 65, sor(p == 4, p == 6, p == 7)))
+    else:
+        compressed = uncompressed = valid_size = False
+
+    def fake_verify(msg_hash, pub_key, s):
+        return bool(sand(valid_size, verdict))
+    ex.stub(_escript.dsa_verify, fake_verify)
+    tx, prevouts = _ctx()
+    try:
+        script_bytes = (bytes([len(signature)]) + signature if fad else b"") + b"\xac"
+        r = _escript.op_checksig(signature, [signature], key, script_bytes, 0, 2000, tx, 0, flags, bool(segwit))
+        _escript.assert_nullfail(flags, bool(r), [signature], "OP_CHECKSIG")
+        raised = False
+    except (BTClibValueError, ScriptError):
+        raised = True
+    # Core: EvalChecksigPreTapscript
+    strict_der = any(f in fl for f in ("DERSIG", "STRICTENC"))   # LOW_S not used here
+    core_err = bool(fad and not segwit and "CONST_SCRIPTCODE" in fl)
+    if sig != "empty" and not core_err:
+        if strict_der and sig == "der_bad":
+            core_err = True
+        elif "STRICTENC" in fl:
+            base = ht[0] & 0x7F
+            core_err = sor(base < 1, base > 3)
+    if not (type(core_err) is bool and core_err):
+        enc_err = sor(sand("STRICTENC" in fl, snot(sor(compressed, uncompressed))), sand("WITNESS_PUBKEYTYPE" in fl, bool(segwit), snot(compressed)))
+        core_err = sor(core_err, enc_err)
+    success = False if sig != "der_ok" else sand(valid_size, verdict)
+    if "NULLFAIL" in fl and sig != "empty":
+        core_err = sor(core_err, snot(success))
+    claims = {"script_fails_iff_core_fails_it": iff(raised, core_err)}
+    if not raised:
+        claims["result_is_the_verification"] = iff(r == True, success)   # noqa: E712
+    return claims
